@@ -21,7 +21,7 @@
      unspec  set of reasons why the documentation does not determine the outcome (such scenarios are
              never run: nothing is claimed about them)
      hazard  set of reasons why the planned tasks interfere with each other or with existing entries
-     known   set of narrow constructs with a confirmed, unfixed defect ("bakrace", see known/C20.txt)
+     known   set of narrow constructs with a confirmed, unfixed defect (none at present)
      refuse  tasks that cannot be carried out without harming another file (<source>.bak exists): they must fail cleanly
 
    Nothing in this module is derived from cmd/minify/*.go except where the property text itself fixes
@@ -30,7 +30,7 @@ EXTENDS CliPath
 
 JS   == "application/javascript"
 \* README "Types": default extension mapping to mimetype "(and thus minifier)"; webmanifest/rss are not used by generators;
-\* xhtml: the README prints application/xhtml-xml, which names no minifier - read as the registered application/xhtml+xml
+\* xhtml: application/xhtml+xml (RFC 3236; the code since b1ff844)
 ExtTable == {
   [e |-> <<99, 115, 115>>,          t |-> "text/css"],
   [e |-> <<104, 116, 109>>,         t |-> "text/html"],
@@ -202,9 +202,8 @@ Plan(sc) ==
       \* named file of unknown type), f8787e2 (`src/.` = `src/`): these constructs are generated again.
       \* (f452f5d: a task whose backup name belongs to another task of the run is not started; 38012cd: sync leaves a file
       \* alone that it would copy onto itself through another spelling - both constructs are generated again.)
-      \* Still open (known/C19.txt): README "Types" promises a minifier for every listed extension, but xhtml is mapped to the
-      \* string "application/xhtml-xml" for which none exists; the registered type application/xhtml+xml (RFC 3236) is XML.
-      known == IF \E k \in 1..nT : tasks[k].type = "application/xhtml+xml" THEN {"xhtml"} ELSE {}
+      \* (b1ff844: xhtml is mapped to application/xhtml+xml as the README's "(and thus minifier)" requires - generated again.)
+      known == {}
   IN [tasks |-> tasks, unspec |-> unspec, hazard |-> hazard, known |-> known,
       inplace |-> {k \in fileDst : InPlace(k)}, refuse |-> {k \in fileDst : Refused(k)}, dstReal |-> [k \in 1..nT |-> JoinComps(dstReal[k])]]
 =============================================================================
